@@ -421,7 +421,7 @@ def _target_choices(spaces, thorough):
 def fam_funcs(thorough):
     out = []
     bases = FUNC_BASES if thorough else FUNC_BASES[:2]
-    opsets = ["b", "d", "bd", "db"] if thorough else ["b", "d", "bd"]
+    opsets = ["b", "d", "bd", "db"] if thorough else ["b", "bd"]
     shape_sets = SHAPE_SETS_1 + (SHAPE_SETS_2 if thorough
                                  else [["eval", "face"], ["xyoz", "eval"]])
     for base in bases:
@@ -464,7 +464,7 @@ def fam_props(thorough):
     if not thorough:
         # quick: all singles, all ordered pairs
         pass
-    bases = PROP_BASES if thorough else PROP_BASES[:2]
+    bases = PROP_BASES if thorough else PROP_BASES[:1]
     for bidx, base in enumerate(bases):
         spaces = used_spaces(base)
         for refl in relists:
@@ -647,8 +647,8 @@ def families(tier):
         fams["seq"] = _uniq(fam_seq(SEQ_ALPHABET_QUICK, 2)
                             + fam_seq(SEQ_ALPHABET_QUICK[:1]
                                       + SEQ_ALPHABET_QUICK[3:4]
-                                      + SEQ_ALPHABET_QUICK[8:12], 3))
-        fams["single"] = fam_single(COMPANIONS[:2], quick=True)
+                                      + SEQ_ALPHABET_QUICK[8:11], 3))
+        fams["single"] = fam_single(COMPANIONS[1:2], quick=True)
     fams["funcs"] = fam_funcs(thorough)
     fams["props"] = fam_props(thorough)
     fams["cma"] = fam_cma(thorough)
